@@ -1,11 +1,14 @@
 #!/bin/bash
-# usage: try_seed.sh <seed-id> <prop> [<prop> ...]   -- applies the seeded change to /repo, runs the quick checks, reverts
+# usage: try_seed.sh <seed-id> <prop> [<prop> ...]   -- applies the seeded change to /repo, runs the quick checks, reverts.
+# evidence/ is saved and restored so that committed evidence always comes from the unchanged tree.
 id=$1; shift
 cd /repo || exit 2
 git diff --quiet || { echo "repo dirty"; exit 2; }
-git apply /verif/seeded/$id/patch.diff || { echo "apply failed"; exit 2; }
+bak=$(mktemp -d /tmp/evbak.XXXXXX); cp -a /verif/evidence/. $bak/
+git apply /verif/seeded/$id/patch.diff || { echo "apply failed"; rm -rf $bak; exit 2; }
 for p in "$@"; do
   out=$(cd /verif && VERIF_SEED=${VERIF_SEED:-0} python3 check.py $p --tier ${TIER:-quick} 2>&1 | tail -3)
   echo "[$id] $p => $(echo "$out" | tr '\n' ' ' | cut -c1-400)"
 done
 git -C /repo checkout -- . && git -C /repo clean -qfd src
+rm -rf /verif/evidence/*.json; cp -a $bak/. /verif/evidence/; rm -rf $bak
